@@ -186,7 +186,7 @@ func (fc *FnCtx) trCall(st *State, call *ast.CallExpr) []Val {
 		return fc.callByContract(st, call, fn, recvExpr, c)
 	}
 	// extern contracts: receiver-specific first
-	for _, key := range fc.externKeys(fn, recvExpr) {
+	for _, key := range arityKeys(fc.externKeys(fn, recvExpr), len(call.Args)) {
 		if c := fc.w.externs[key]; c != nil {
 			fc.externs[key] = true
 			return fc.callByContract(st, call, fn, recvExpr, c)
@@ -233,6 +233,16 @@ func (fc *FnCtx) externKeys(fn *types.Func, recvExpr ast.Expr) []string {
 	}
 	keys = append(keys, pkgName+"."+name)
 	return keys
+}
+
+// arityKeys: for variadic library functions an extern contract may be keyed by arity
+// ("path.Join/2").
+func arityKeys(keys []string, n int) []string {
+	var out []string
+	for _, k := range keys {
+		out = append(out, fmt.Sprintf("%s/%d", k, n), k)
+	}
+	return out
 }
 
 func (fc *FnCtx) havocCall(st *State, call *ast.CallExpr, what string) []Val {
